@@ -3,6 +3,7 @@
 package c07
 
 import (
+	"fmt"
 	"testing"
 
 	"pgregory.net/rapid"
@@ -20,7 +21,7 @@ var profile = gen.Profile{
 	PCancel: 18, PBurst: 25, PObey: 35, Builtins: true, Pins: true,
 	PSendFault: 20,             // the channel refuses a reply now and then: the id is free again all the same
 	AllowPush:  true, PPush: 7, // outstanding server callbacks use ids 1, 2, 3 of their own
-	Outcomes: []string{"ok", "ok", "err:-32000", "ctxerr", "bad"},
+	Outcomes: []string{"ok", "ok", "err:-32000", "ctxerr", "bad", "baderr", "badraw", "emptyraw"},
 	Chans:    []string{"direct", "pipe"},
 }
 
@@ -35,6 +36,39 @@ func run(t *testing.T, sc sim.Scenario) engine.Verdict {
 var parts = []engine.AnyPart{
 	engine.Part[sim.Scenario]{Name: "scenarios", Run: run, Gen: genCase,
 		Rule: "rapid-generated histories of calls whose ids come from the pool {1, 2, \"1\", 3, \"s\"} (constant reuse), to parking / immediate / failing handlers, unknown and reserved methods, duplicates inside one array, CancelRequest for in-flight, finished and never-seen ids, at every quiescent point the context of each parked invocation must be cancelled iff a CancelRequest named its id while it was in flight, the reserved-id snapshot must equal the model's in-flight set, duplicates of in-flight ids are answered -32600 without disturbing the first call, ids are accepted again after any reply; non-trivial = an id is reused while the first use is in flight, or after an error reply, or after a CancelRequest; distinct = hash of the scenario"},
+}
+
+// restart: reservations must not outlive the connection they were made on.
+func genRestart(t *rapid.T) sim.Scenario {
+	return gen.ShutdownScenarioPool(t, []string{"1", "2", `"1"`, "3"})
+}
+
+func runRestart(t *testing.T, sc sim.Scenario) engine.Verdict {
+	h := sim.Run(t, sc)
+	if h.BubbleErr != "" {
+		return engine.Verdict{Labels: []string{"other-clause:bubble-error"}} // judged by C08
+	}
+	for _, p := range oracle.ReservationAcrossRestart(sc, h) {
+		return engine.Failf(p.Sig, "%s\nscript:\n%s\nhistory:\n%s", p.Msg, oracle.ScriptText(sc), oracle.HistoryText(h))
+	}
+	inflightAtStop, secondTraffic := false, 0
+	stopSeen := false
+	for _, e := range h.Events {
+		switch {
+		case e.Kind == "quiesce" && e.Snap != nil && !stopSeen:
+			inflightAtStop = len(e.Snap.Reserved) > 0
+		case e.Kind == "stop" || e.Kind == "peerclose" || e.Kind == "recvfault":
+			stopSeen = true
+		case e.Kind == "sending" && e.Conn > 1:
+			secondTraffic++
+		}
+	}
+	return engine.Verdict{NonTrivial: inflightAtStop && secondTraffic > 1, Labels: []string{fmt.Sprintf("in-flight-at-stop:%v", inflightAtStop), fmt.Sprintf("records-on-second-connection:%d", min(secondTraffic, 6))}}
+}
+
+func init() {
+	parts = append(parts, engine.Part[sim.Scenario]{Name: "restart", Run: runRestart, Gen: genRestart,
+		Rule: "shutdown scripts (traffic, Stop / peer close / channel faults at any point, WaitStatus, Start of the same Server on a fresh channel, 2-8 more steps of traffic) with every request id drawn from the pool {1, 2, \"1\", 3}: on each connection an id in the reserved set at a quiescent point was sent on that connection, and a duplicate-id rejection names an id sent at least twice on that connection; non-trivial = calls were in flight at the last quiescent point before the stop and the second connection carried more than the probe; distinct = hash of the scenario"})
 }
 
 func TestProp(t *testing.T)   { engine.RunParts(t, "C07", parts) }
